@@ -32,13 +32,20 @@ def run(c, facts, tier):
         n += 1
         ty = m.group(1)
         body = A.single_body(b.fn_ir(key))
+        ts = {}
+        hops = 0
+        while body is not None and body["t"] == "ref" and hops < 4:
+            # forwarding to a (generic) helper: `unsigned::<u32>(input)`
+            ts = dict(body.get("targs") or {})
+            body = A.single_body(g.deref(body))
+            hops += 1
         ok = False
         det = "shape not recognised: %s" % (peg.show(body) if body else "?")
         if body is not None and body["t"] == "trymap":
             st = A.unwrap(body["p"])
             f = body["f"]
             parses = find_all(f, lambda x: x.get("k") == "mcall" and x["m"] == "parse")
-            targ = parses[0]["targs"] if parses else []
+            targ = [ts.get(x, x) for x in (parses[0]["targs"] if parses else [])]
             onparam = bool(parses) and f["k"] == "closure" and rx.is_var(parses[0]["recv"], rx.closure_params(f)[0].get("name"))
             plain = f["k"] == "closure" and rx.closure_body(f) is parses[0] if parses else False
             ok = st["t"] == "set" and st["cs"] == peg.cs_in("0123456789") and st["min"] >= 1 and st["max"] is None and targ == [ty] and onparam and plain
